@@ -474,6 +474,11 @@ theorem all_complete_partial (C : Consts ℝ) (basic : XP ℝ → XP ℝ) (conj2
     ∀ a, I a → dist a p0 + ε ≤ maxdist → ∃ e ∈ (allInt0 C basic conj2 maxdist p0 m fuel).res, dist e a ≤ ε :=
   allInt0_complete' C basic conj2 maxdist p0 m fuel I ε hm hmax hδ hε hεδ hnum K
 
+/-- the start grid of `All` has exactly the `m2 = m*m + (m - 1) % 2` points the code allocates (`vector<XPoint> start(m2)` is
+    filled exactly; the commented-out `assert(h == m2)` of the source holds), for every `m ≥ 1` -/
+theorem all_starts_count (p0 : XP ℝ) (d3 : ℝ) (m : Nat) (hm : 1 ≤ m) : (allStarts p0 d3 m).length = m * m + (m - 1) % 2 :=
+  allStarts_length p0 d3 m hm
+
 /-! ### non-vacuity of the contract: two intersections `A = (0, 0)`, `B = (100, 0)`, the kernel "nearer of the two" -/
 def exC : Consts ℝ := { d := 100, t1 := 40, delta := 1, d1 := 30, d2 := 30, d3 := 30, tol := 0 }
 def exA : XP ℝ := ⟨0, 0, 0⟩
